@@ -20,7 +20,7 @@ def _violations_from(spec, res, via=None):
         except Exception as e:  # trace is best effort
             trace, vals = "trace unavailable: %r" % (e,), {}
         reproduced, rtxt = False, "no native replay driver for this unit"
-        if spec.get("replay") and vals:
+        if spec.get("replay"):
             try:
                 reproduced, rtxt = spec["replay"](vals, f)
             except Undecided as e:
